@@ -229,6 +229,9 @@ func genC15(seed uint64, idx int) c15Data {
 	if r.Bool(0.3) {
 		sc.Flags = append(sc.Flags, "-e")
 	}
+	if sp := kernel.NewRand(kernel.Mix(seed, 15, 9, uint64(idx))); sp.Bool(0.35) {
+		sc.Spell = sp.Uint64() | 1
+	}
 	inMode := r.Weighted([]int{6, 2, 2})
 	if inMode == 1 {
 		sc.Flags = append(sc.Flags, "-n")
@@ -283,20 +286,38 @@ func genC15(seed uint64, idx int) c15Data {
 		}
 	}
 	sc.Stdin = text
-	// sometimes spread over files with "-" among them
-	if r.Bool(0.25) && d.Batch != "read-error" {
-		cut := 0
-		if len(docs) > 0 {
-			cut = r.Intn(len(docs) + 1)
+	// sometimes spread over two or three sources, files with "-" possibly among them; in the
+	// truncation batch the malformed or truncated part ends any one of them, not only the last:
+	// the inputs of the later sources are still processed
+	if r.Bool(0.3) && (d.Batch == "delivery" || d.Batch == "truncation") {
+		nseg := r.Range(2, 3)
+		texts := make([]string, nseg)
+		lo := 0
+		for i := 0; i < nseg; i++ {
+			hi := len(docs)
+			if i < nseg-1 {
+				hi = lo + r.Intn(len(docs)-lo+1)
+			}
+			texts[i] = joinDocs(r, docs[lo:hi], i < nseg-1 || r.Bool(0.5))
+			lo = hi
 		}
-		if d.Batch == "delivery" {
-			a, b := joinDocs(r, docs[:cut], true), joinDocs(r, docs[cut:], r.Bool(0.5))
-			if r.Bool(0.5) {
-				sc.Sources = []Source{{Name: "f", Text: a}, {Name: "-"}}
-				sc.Stdin = b
+		if d.Batch == "truncation" {
+			bad := r.Intn(nseg)
+			if r.Bool(0.4) && len(texts[bad]) > 0 {
+				texts[bad] = texts[bad][:r.Intn(len(texts[bad])+1)]
 			} else {
-				sc.Sources = []Source{{Name: "-"}, {Name: "f", Text: b}}
-				sc.Stdin = a
+				texts[bad] += kernel.Pick(r, []string{`{"a":@}`, `[1,`, `tru`, `}`, `"unterminated`, `{"id":9,`, `nul`, "\x01", `[1 2]`}) + kernel.Pick(r, []string{"", "\n", "\n" + `{"id":99}` + "\n"})
+			}
+		}
+		stdinAt := r.Intn(nseg + 1) // nseg: no source is stdin
+		sc.Stdin = ""
+		sc.Sources = nil
+		for i, t := range texts {
+			if i == stdinAt {
+				sc.Sources = append(sc.Sources, Source{Name: "-"})
+				sc.Stdin = t
+			} else {
+				sc.Sources = append(sc.Sources, Source{Name: fmt.Sprintf("f%d", i), Text: t})
 			}
 		}
 	}
@@ -516,6 +537,11 @@ func shrinkScenario(sc *Scenario, fixedQuery bool, mk func(Scenario) kernel.Case
 		s.Plan = simio.ReadPlan{Fault: sc.Plan.Fault, FaultAt: sc.Plan.FaultAt, ErrWithData: sc.Plan.ErrWithData}
 		add(s)
 		s.Plan.Rest = 1
+		add(s)
+	}
+	if sc.Spell != 0 {
+		s := *sc
+		s.Spell = 0
 		add(s)
 	}
 	for i := range sc.Flags {
